@@ -12,6 +12,8 @@ ASSUMPTIONS = [
 def run(ctx):
     quick = ctx.quick
     rng = ctx.rng.fork("C05")
+    wit = asmlib.run_witnesses(ctx, ['normal', 'F1', 'F8'])
+    ctx.coverage["coq_witness_histories_on_impl"] = wit
     scs = (txscen.single_transmissions(rng, 200 if quick else 3000) + txscen.follow_on(rng, 200 if quick else 3000)
            + txscen.repeats(rng, 80 if quick else 1000) + txscen.stale_history(rng, 40 if quick else 400)
            + txscen.many_repeats(rng, 20 if quick else 100))
